@@ -174,3 +174,48 @@ Theorem C12_signalling_unknown_id : forall w h c m,
   (exists a, Signal.handle_request_stream w h c m = Signal.failed w Signal.EInternal a).
 Proof. exact SignalSafe.unknown_id_harmless. Qed.
 Print Assumptions C12_signalling_unknown_id.
+
+(* ------------------------------------------------------------------ *)
+(* WHIP trickle-ICE bodies (Model/SdpFrag.v: sdpfrag/sdpfrag.go
+   SDPFrag.Unmarshal, called by the PATCH handler of webserver/whip.go on the
+   request body; tied to the code by the driver `sdpfrag`).  Names qualified. *)
+From Galene Require Model.SdpFrag Proofs.SdpFragSafe.
+
+(* For EVERY byte string the parser returns a fragment or the error
+   "unexpected mid"; it never goes through its nil media-description pointer. *)
+Theorem C12_sdpfrag_safe : forall data, SdpFrag.unmarshal data <> SdpFrag.RPanic.
+Proof. exact SdpFragSafe.unmarshal_safe. Qed.
+Print Assumptions C12_sdpfrag_safe.
+
+(* The one nil test that is not implied by the shape of the code is needed:
+   without it the 7-byte body "a=mid:0" is a nil dereference. *)
+Theorem C12_sdpfrag_guard_needed :
+  SdpFrag.unmarshal_unguarded (SdpFrag.p_mid ++ [48]) = SdpFrag.RPanic.
+Proof. exact SdpFragSafe.unmarshal_unguarded_panics. Qed.
+Print Assumptions C12_sdpfrag_guard_needed.
+
+(* The error is returned exactly when an "a=mid:" line precedes the first
+   "m=" line, among the lines the scanner delivers ... *)
+Theorem C12_sdpfrag_error_iff : forall data,
+  SdpFrag.unmarshal data = SdpFrag.RErr <->
+  SdpFragSafe.mid_before_m (SdpFrag.scan_lines data) = true.
+Proof. exact SdpFragSafe.unmarshal_err_iff. Qed.
+Print Assumptions C12_sdpfrag_error_iff.
+
+(* ... and those lines contain no line feed and fit the scanner's buffer
+   (a longer line ends the scan: the rest of the body is ignored). *)
+Theorem C12_sdpfrag_lines : forall data l, In l (SdpFrag.scan_lines data) ->
+  ~ In 10 l /\ SdpFrag.zlen l < SdpFrag.max_token.
+Proof. exact SdpFragSafe.scan_lines_wf. Qed.
+Print Assumptions C12_sdpfrag_lines.
+
+(* Non-vacuity: a body with a session-level ufrag, one media section, a mid
+   and a candidate parses to the expected fragment. *)
+Example C12_sdpfrag_example :
+  SdpFrag.unmarshal
+    (SdpFrag.p_ufrag ++ [117;13;10] ++ SdpFrag.p_m ++ [120;13;10] ++
+     SdpFrag.p_mid ++ [48;13;10] ++ SdpFrag.p_cand ++ [99;10])
+  = SdpFrag.ROk (SdpFrag.mkFrag [117] [] []
+      [SdpFrag.mkMd [120] [48] [] []
+         [SdpFrag.mkCand [99] (Some [117]) (Some 0) (Some [48])]]).
+Proof. vm_compute. reflexivity. Qed.
